@@ -1,6 +1,7 @@
 package main
 
 import (
+	"regexp"
 	"bytes"
 	"context"
 	"fmt"
@@ -50,7 +51,7 @@ func (o *Obligation) Script() string {
 	if n > len(s.lines) {
 		n = len(s.lines)
 	}
-	for _, l := range s.lines[:n] {
+	for _, l := range pruneDeadDefs(s.lines[:n], o.Goal+" "+o.Except+" "+strings.Join(s.axioms, " ")) {
 		b.WriteString(l + "\n")
 	}
 	if o.Except != "" {
@@ -128,8 +129,23 @@ func Discharge(o *Obligation, dir string, timeoutS int, all bool) {
 	}
 	var outs []solveOut
 	var sat, unsat *solveOut
+	var grace <-chan time.Time
+	graceOver := false
 	for range solvers {
-		r := <-ch
+		var r solveOut
+		if grace != nil {
+			select {
+			case r = <-ch:
+			case <-grace:
+				cancel()
+				graceOver = true
+			}
+			if graceOver {
+				break
+			}
+		} else {
+			r = <-ch
+		}
 		outs = append(outs, r)
 		rr := r
 		if r.status == "unsat" && unsat == nil {
@@ -138,9 +154,27 @@ func Discharge(o *Obligation, dir string, timeoutS int, all bool) {
 		if r.status == "sat" && sat == nil {
 			sat = &rr
 		}
-		if !all && (unsat != nil || sat != nil) {
-			cancel()
-			break
+		if unsat != nil || sat != nil {
+			if !all {
+				cancel()
+				break
+			}
+			// thorough: after the first verdict the other solvers get a grace period for a second
+			// opinion (a disagreement is an engine error), then they are stopped
+			if grace == nil {
+				grace = time.After(10 * time.Second)
+			}
+		}
+		if grace != nil {
+			select {
+			case <-grace:
+				cancel()
+				graceOver = true
+			default:
+			}
+			if graceOver {
+				break
+			}
 		}
 	}
 	var log []string
@@ -284,4 +318,90 @@ func skipSexpr(toks []string, i int) int {
 		i++
 	}
 	return i
+}
+
+var reDefLine = regexp.MustCompile(`^\(assert \(= ([A-Za-z_][A-Za-z0-9_]*) `)
+var reRangeLine = regexp.MustCompile(`^\(assert \(and \(<=? [-0-9() ]+ ([A-Za-z_][A-Za-z0-9_]*)\) \(<=? ([A-Za-z_][A-Za-z0-9_]*) [-0-9() ]+\)\)\)$`)
+var reSym = regexp.MustCompile(`[A-Za-z_][A-Za-z0-9_]*`)
+
+// pruneDeadDefs drops assertions that only define (or bound) a generated constant nothing else mentions:
+// "(assert (= x term))" with x occurring in no other assertion, goal or axiom can always be satisfied by
+// choosing x, so the rest of the script is equisatisfiable without it. Repeats until nothing changes.
+func pruneDeadDefs(lines []string, rest string) []string {
+	type info struct {
+		def  string   // defined / bounded name ("" = ordinary assertion)
+		syms []string // identifiers occurring in the line
+	}
+	infos := make([]info, len(lines))
+	count := map[string]int{}
+	for _, sy := range reSym.FindAllString(rest, -1) {
+		count[sy] += 1 << 20
+	}
+	for i, l := range lines {
+		infos[i].syms = reSym.FindAllString(l, -1)
+		for _, sy := range infos[i].syms {
+			count[sy]++
+		}
+		if m := reDefLine.FindStringSubmatch(l); m != nil && generatedName(m[1]) {
+			infos[i].def = m[1]
+		} else if m := reRangeLine.FindStringSubmatch(l); m != nil && m[1] == m[2] && generatedName(m[1]) {
+			infos[i].def = m[1]
+		}
+	}
+	// occurrences of x inside the lines that define/bound x do not keep x alive
+	own := map[string]int{}
+	for _, in := range infos {
+		if in.def != "" {
+			for _, sy := range in.syms {
+				if sy == in.def {
+					own[sy]++
+				}
+			}
+		}
+	}
+	dead := make([]bool, len(lines))
+	for changed := true; changed; {
+		changed = false
+		for i, in := range infos {
+			if dead[i] || in.def == "" {
+				continue
+			}
+			if count[in.def]-own[in.def] > 0 {
+				continue
+			}
+			dead[i] = true
+			changed = true
+			for _, sy := range in.syms {
+				if sy == in.def {
+					continue
+				}
+				count[sy]--
+			}
+		}
+	}
+	out := lines[:0:0]
+	for i, l := range lines {
+		if !dead[i] {
+			out = append(out, l)
+		}
+	}
+	return out
+}
+
+// generatedName: constants minted by the generator (prefix_number), never parameters or ghosts.
+func generatedName(n string) bool {
+	i := strings.LastIndex(n, "_")
+	if i <= 0 || i == len(n)-1 {
+		return false
+	}
+	for _, c := range n[i+1:] {
+		if c < '0' || c > '9' {
+			return false
+		}
+	}
+	switch n[:i] {
+	case "p", "lp", "G0", "hg", "new", "nx", "hc", "hh", "hs", "ha", "hm", "hp":
+		return false
+	}
+	return !strings.HasPrefix(n, "p_") && !strings.HasPrefix(n, "lp_") && !strings.HasPrefix(n, "H_") && !strings.HasPrefix(n, "G0_") && !strings.HasPrefix(n, "C0_")
 }
